@@ -12,7 +12,10 @@ RULE = ("pairs (reference, compared) of unrooted trees on the same 4..11 taxa (r
         "without the identical-only shortcut, through Compare, CompareWeighted and CommonEdges; every base pair also yields STREAMS of 4..6 "
         "compared trees sent through one call (cpus=1): the reference itself first then contractions / other topologies / a re-rooted copy, "
         "repeated identical trees, mixed streams with the star tree and length-perturbed copies, streams with a tree on other taxa in the "
-        "middle; each record is judged on its own against the per-tree model and the oracle; rejection cases rename one tip, "
+        "middle; each record is judged on its own against the per-tree model and the oracle; PRE-USED trees: the worker indexes the "
+        "reference and/or compared trees (ReinitIndexes), then edits them through the public API without re-indexing (Rename swapping two "
+        "tips, Node.SetName swap, Reroot at a random node, RotateInternalNodes, UnRoot of a rooted copy), dumps them, and only then "
+        "compares; model and oracle work on the dumped trees (a stale index must not influence the record); rejection cases rename one tip, "
         "drop a tip or add a tip in one of the trees; some rooted pairs (outside the quantifier) are run for the correspondence "
         "only; all ordered pairs of the 7 unrooted shapes on 4 taxa and of the 66 on 5 taxa are enumerated in the thorough tier (trees up to 24 taxa there); non-trivial = the two trees differ in at "
         "least one non-trivial split (or must be rejected); distinct = distinct case text")
@@ -189,12 +192,55 @@ def emit_stream(out, kind, t1, t2s, rng, ops=("compare", "weighted"), flags=None
             out.append({"sx": sx(c), "meta": {"kind": kind, "op": op, "tips": tips, "ident": ident, "swapped": False,
                                               "ntips": len(leaves(t1)), "stream": len(t2s)}})
 
+def root_on_branch(t, rng, g):
+    """degree-2 root on a random branch of an unrooted tree"""
+    r = reroot_at(t, rng)
+    ch = [i for i, s in enumerate(r["slots"]) if s is not None]
+    i = rng.choice(ch)
+    e, c = r["slots"][i]
+    del r["slots"][i]
+    r["slots"].insert(rng.randrange(0, len(r["slots"]) + 1), None)
+    e1 = dict(e); e1["len"] = g.length("all")
+    e2 = {"len": g.length("all"), "sup": None, "pv": None, "coms": []}
+    sl = [(e1, c), (e2, r)]
+    rng.shuffle(sl)
+    return {"name": "", "coms": [], "slots": sl}
+
+NONE = [Sym("none")]
+
+def edit_for(t, rng, kind=None):
+    """an index-invalidating public edit applied by the worker AFTER ReinitIndexes and without re-indexing"""
+    kind = kind or rng.choice(["rename", "rename", "setname", "reroot", "rotate"])
+    if kind in ("rename", "setname"):
+        a, b = rng.sample(leaves(t), 2)
+        return [Sym(kind), a, b]
+    if kind == "reroot":
+        return [Sym("reroot"), rng.randrange(0, n_nodes(t))]
+    if kind == "rotate":
+        return [Sym("rotate"), rng.randrange(1, 2 ** 31)]
+    if kind == "unroot":
+        return [Sym("unroot")]
+    return NONE
+
+def emit_pre(out, kind, t1, t2s, pre1, pres, rng, ops=("compare", "weighted"), flags=None):
+    """pre-used trees: indexed, edited through the public API, NOT re-indexed, then compared"""
+    for op in ops:
+        fl = flags if flags is not None else [(False, False), (True, False)]
+        for tips, ident in fl:
+            if op == "common":
+                c = {"op": Sym(op), "t1": T(t1), "t2": T(t2s[0]), "tips": tips, "ident": False, "pre1": pre1, "pres": [pres[0]]}
+            else:
+                c = {"op": Sym(op), "t1": T(t1), "t2s": [T(b) for b in t2s], "tips": tips, "ident": ident,
+                     "pre1": pre1, "pres": pres}
+            out.append({"sx": sx(c), "meta": {"kind": kind, "op": op, "tips": tips, "ident": ident, "swapped": False,
+                                              "ntips": len(leaves(t1)), "stream": len(t2s), "preused": True}})
+
 def unrooted(g, rng, n, maxdeg=5):
     return g.tree(ntips=n, rooted=False, maxdeg=maxdeg, lenmode="all", supmode="mixed", up_random=rng.random() < 0.6)
 
 def gen(rng, tier):
     g = Gen(rng)
-    nbase = {"quick": 24, "thorough": 300, "search": 50}[tier]
+    nbase = {"quick": 22, "thorough": 250, "search": 50}[tier]
     hi = 11 if tier != "thorough" else 24
     out = []
     for _ in range(nbase):
@@ -221,6 +267,15 @@ def gen(rng, tier):
         emit_stream(out, "stream-mixed", t, [r, c, m, contraction(t, rng, k=1000), perturb_lengths(t, rng, g), u], rng, flags=fl1)
         if rng.random() < 0.5:
             emit_stream(out, "stream-difftaxa", t, [clone(t), rename_tip(t, rng, "zz"), c1, clone(t)], rng, flags=fl1)
+        # pre-used trees: indexed earlier, then edited without re-indexing, then compared
+        flp = [(rng.random() < 0.5, rng.random() < 0.25)]
+        emit_pre(out, "pre-rename", t, [clone(t)], NONE, [edit_for(t, rng, "rename")], rng, ops=("compare", "weighted", "common"), flags=flp)
+        emit_pre(out, "pre-setname", t, [clone(t)], NONE, [edit_for(t, rng, "setname")], rng, flags=flp)
+        emit_pre(out, "pre-ref", t, [clone(t), c1], edit_for(t, rng), [NONE, edit_for(c1, rng)], rng, flags=flp)
+        emit_pre(out, "pre-stream", t, [clone(t), clone(t), c1, u, clone(t)], NONE,
+                 [NONE, edit_for(t, rng, "rename"), edit_for(c1, rng, "reroot"), edit_for(u, rng), edit_for(t, rng, "rotate")], rng, flags=flp)
+        rt2 = root_on_branch(t, rng, g)
+        emit_pre(out, "pre-unroot", t, [rt2], NONE, [[Sym("unroot")]], rng, ops=("compare", "weighted", "common"), flags=flp)
         # star tree against anything
         if rng.random() < 0.3:
             emit(out, "star", t, contraction(t, rng, k=1000), rng, flags=[(False, False), (False, True)])
@@ -249,6 +304,8 @@ def gen(rng, tier):
     emit(out, "witness", ref, star, rng)
     emit(out, "witness", ref2, ref, rng)
     emit_stream(out, "witness-stream", q1, [clone(q1), q0, clone(q1), q0], rng)
+    emit_pre(out, "witness-pre", q1, [clone(q1)], NONE, [[Sym("rename"), "a", "c"]], rng, ops=("compare", "weighted", "common"))
+    emit_pre(out, "witness-pre", q1, [clone(q1)], [Sym("setname"), "b", "d"], [NONE], rng)
     emit_stream(out, "witness-stream", ref2, [clone(ref2), ref, star, clone(ref2)], rng)
     if tier == "thorough":
         for nn in (4, 5):
